@@ -10,7 +10,7 @@
 //   1 r kind p1 p2      new register r
 //   2 r v w mv          update (v: item value / key, w: weight / summary increment, mv: pass the item as rvalue)
 //   3 r s               r := new copy of s                              (r free)
-//   4 r s mode c        r := new T(std::move(s)); then s is destroyed (mode 0) or assigned s = c (mode 1)
+//   4 r s mode c        r := new T(std::move(s)); then s is destroyed (mode 0), assigned s = c (mode 1) or s = T(c) (mode 2)
 //   5 r s               r = s                                            (r == s: self-assignment)
 //   6 r s mode c        r = std::move(s); then as in 4                   (r == s: self-move, no follow-up)
 //   7 r s               r.merge(s)
@@ -44,6 +44,7 @@ static void need_free(I r) { if (has(r)) throw std::invalid_argument("register i
 static void follow_up(const Line& t, size_t at, I s) {
   const int mode = (int)t.at(at);
   if (mode == 0) { regs.erase((long)s); }
+  else if (mode == 2) { Obj& c = get(t.at(at + 1)); std::unique_ptr<Obj> tmp(c.copy()); get(s).move_assign(*tmp); }   // s = T(c)
   else { Obj& c = get(t.at(at + 1)); get(s).copy_assign(c); }
 }
 
